@@ -148,6 +148,9 @@ class C13(conncheck.ConnCheck):
                 except Boom as error:
                     if state.get('mech') == 'with-block':
                         ws.__exit__(Boom, error, error.__traceback__)
+                        # the with-block has been left: the socket must be closed now, even though the application may
+                        # still hold the iterator object (nothing has been garbage-collected yet)
+                        state['open_after_exit'] = [c.idx for c in world.conns if not c.closed]
                     del error
             except W.Truncate:
                 run.truncated = True
@@ -168,7 +171,7 @@ class C13(conncheck.ConnCheck):
                     at += '/inner' if state['prev'] == 'ready' else '/outer'
                 model.sites.add('abandon@' + at)
                 model.abandoned = (state['mech'], at)
-                leaked = [c.idx for c in world.conns if not c.released()]
+                leaked = [c.idx for c in world.conns if not c.released()] or state.get('open_after_exit')
                 if leaked:
                     model.problems.append(('socket-leak', 'iterator abandoned by %s at %s: socket #%s neither closed nor unreachable (events %s)'
                                            % (state['mech'], at, leaked, model.seen_names)))
